@@ -366,6 +366,12 @@ func (b *bufferedReadSeeker) Read(p []byte) (int, error) {
 	// Read from buffer.
 	readFromBuf := copy(p, b.buf[b.readHead:b.writeHead])
 	b.readHead += readFromBuf
+	if readFromBuf > 0 {
+		// Hand replayed bytes to the caller right away: reading from the source
+		// as well could block until the backend produces more output, and a
+		// backend that waits for the client to see what it already sent never does.
+		return readFromBuf, nil
+	}
 	// Read from wrapped source and write to buffer.
 	readFromSource, err := b.r.Read(p[readFromBuf:])
 	written := copy(b.buf[b.writeHead:], p[readFromBuf:(readFromBuf+readFromSource)])
